@@ -3,7 +3,7 @@ import PersimVerif.Model.Sliced
 /-! driver commands for C15 (model at `Float`):
     `sw <PD1> <PD2> <dirs> <diag_theta> <sqrt2>`  →  the value, or `err:ZeroDivisionError` for `M = 0`;
     `sw.old …` the same with the projection of the old code.
-    `dirs`/`diag_theta` are the float32 direction vectors of the code as exact rationals. -/
+    `dirs`/`diag_theta` are the (float64) direction vectors of the code as exact rationals. -/
 namespace PersimVerif.Drv.Sliced
 open PersimVerif Val PersimVerif.Drv
 
